@@ -582,3 +582,59 @@ theorem isMessageApproved_call (C : Crypto) (gw gw' : State) (ctx : Ctx) (a b c 
   exact ⟨rfl, rfl⟩
 
 end Axelar.Gateway
+
+namespace Axelar.ItsW
+open Axelar Codec Its World
+
+/-- completeness of the gateway validation as the service sees it: when the entry is the approval
+    for exactly these fields addressed to the service, a validation that runs returns `true`
+    and leaves the entry executed -/
+theorem gatewayValidate_of_approved (C : Crypto) (cx : ICtx) (chain id src ph : Bytes) (t t1 : Tx) (b : Bool)
+    (hk : t.w.kind t.w.its.gateway = some .gateway)
+    (ha : t.w.gw.messages (chain, id) = .approved (Gateway.messageHash C chain id src cx.self ph))
+    (h : gatewayValidate C cx chain id src ph t = some (b, t1)) :
+    b = true ∧ t1.w.gw.messages (chain, id) = .executed := by
+  simp only [gatewayValidate, run_bind, run_getI] at h
+  cases hs : subcall C cx t.w.its.gateway "validateMessage" 0 [] [chain, id, src, ph] t with
+  | none => simp [hs] at h
+  | some x =>
+    obtain ⟨rs, tt⟩ := x
+    simp only [hs, run_pure, Option.some.injEq, Prod.mk.injEq] at h
+    obtain ⟨hrs, rfl⟩ := h
+    unfold subcall at hs
+    cases hp : World.pay t.w cx.self t.w.its.gateway 0 [] with
+    | none => simp [hp] at hs
+    | some w1 =>
+      simp only [hp] at hs
+      obtain ⟨g1, g2, g3, g4⟩ := World.pay_gw _ _ _ _ _ _ hp
+      cases hc : World.callOther C w1 cx.self t.w.its.gateway "validateMessage" 0 [] [chain, id, src, ph] with
+      | none => simp [hc] at hs
+      | some r =>
+        obtain ⟨w2, rs2, evs, pd⟩ := r
+        simp only [hc, Option.some.injEq, Prod.mk.injEq] at hs
+        obtain ⟨rfl, rfl⟩ := hs
+        unfold World.callOther at hc
+        rw [g2, hk] at hc
+        simp only [ne_eq, not_true_eq_false, decide_false, List.isEmpty_nil, Bool.not_true, Bool.or_self,
+          Bool.false_eq_true, if_false] at hc
+        cases hg : Gateway.call C w1.gw ⟨cx.self, w1.owner t.w.its.gateway, w1.now⟩ "validateMessage" [chain, id, src, ph] with
+        | error e => simp [hg] at hc
+        | ok v =>
+          obtain ⟨gw', rs3, evs3⟩ := v
+          simp only [hg, Option.some.injEq, Prod.mk.injEq] at hc
+          obtain ⟨rfl, rfl, _, _⟩ := hc
+          obtain ⟨c', i', s', p', hargs, _, hv, hres⟩ := Gateway.validate_call_inv C w1.gw gw' _ _ _ evs3 hg
+          simp only [List.cons.injEq, and_true] at hargs
+          obtain ⟨rfl, rfl, rfl, rfl⟩ := hargs
+          have hspec := Gateway.validateMessage_spec C w1.gw cx.self chain id src ph
+          simp only at hspec
+          have htrue : (Gateway.validateMessage C w1.gw cx.self chain id src ph).2.1 = true :=
+            hspec.1.mpr (by rw [g1]; exact ha)
+          rw [htrue] at hres
+          refine ⟨by rw [← hrs, hres]; simp, ?_⟩
+          have h1 := hspec.2.1 htrue
+          rw [hv] at h1
+          simp only at h1 ⊢
+          rw [h1]; simp [upd]
+
+end Axelar.ItsW
